@@ -241,7 +241,7 @@ PROPS["C01"] = dict(
                "history acceptance of the real Buffer against the extracted model."
                " Added after the statement audit (DESIGN 5b): schedules with an arbitrary cleaner function at every cleaner run (grun), creation base, first-occurrence order, re-read only after Rollback.",
     level_note=_BUF_NOTE,
-    stages=[corr_stage("BUFK1", 500, 8000, feature=feat_buf("C01"), seeds=3)],
+    stages=[corr_stage("BUFK1", 4000, 8000, feature=feat_buf("C01"), seeds=3)],
 )
 PROPS["C02"] = dict(
     rule="BUFK1 (see C01) including bigbuff.Range and Buffer.Range with scripted callbacks (continue/stop/panic); non-trivial = history with a "
@@ -253,7 +253,7 @@ PROPS["C02"] = dict(
                "a value put by a callback is in the log before that value's Commit, Buffer.Range stops at the end of the buffer with nil and never blocks."
                " Added (DESIGN 5b): Range/Buffer.Range under an arbitrary interleaved environment and with reads pending at entry (C02_range_env_*), composed replay after Rollback; two clauses refuted as worded with the exact caveat.",
     level_note=_BUF_NOTE + " The Range theorems are about the interleaving-free composite; interleavings with the cleaner are explored by the checker only.",
-    stages=[corr_stage("BUFK1", 500, 8000, feature=feat_buf("C02"), seeds=3, params={"salt": 2})],
+    stages=[corr_stage("BUFK1", 4000, 8000, feature=feat_buf("C02"), seeds=3, params={"salt": 2})],
 )
 PROPS["C04"] = dict(
     rule="C04T: 5 timed scenarios (single consumer, two consumers, closing the slowest, cooldown 0, FixedBufferCleaner) on an INSTRUMENTED build; each "
@@ -282,8 +282,8 @@ PROPS["C05"] = dict(
                " Added (DESIGN 5b): every schedule bounded by mu(s); no-recheck variant refuted.",
     level_note="'promptly' is a step-bound/terminal-state statement; real-time latency is only measured (400 ms deadline). The WaitCond model is hand-written; "
                "its tie to sync.go is the sweep over the real code's synchronisation points.",
-    stages=[corr_stage("C05S", 3, 12, feature=feat_buf("C05"), instrument=True, shards=4, tparams={"points": 1000}),
-            corr_stage("BUFK1", 300, 5000, feature=feat_buf("C05"), params={"salt": 5})],
+    stages=[corr_stage("C05S", 6, 12, feature=feat_buf("C05"), instrument=True, shards=4, tparams={"points": 1000}),
+            corr_stage("BUFK1", 2000, 5000, feature=feat_buf("C05"), params={"salt": 5})],
 )
 PROPS["C12"] = dict(
     rule="C12LEAK: Buffer with 1-3 consumers, reads/commits/rollbacks, parked Gets, shut down in 4 orders (consumers first, buffer first, context "
@@ -297,11 +297,11 @@ PROPS["C12"] = dict(
                " Added (DESIGN 5b): Channel.Close theorems, cancellation/watcher split machine, closed consumers of an open Buffer, pending Commit/Rollback on a closed Buffer (37 obligations).",
     level_note="PARTIAL: 'no goroutine left' is proved per protocol model (WaitCond watcher, cleaner timers) and otherwise observed on the real runtime; "
                "a single whole-library thread model is not built.",
-    stages=[corr_stage("C12LEAK", 240, 3000, seeds=2),
-            corr_stage("BUFK1", 300, 5000, feature=feat_buf("C12"), params={"salt": 12}),
-            corr_stage("C13K1", 300, 4000, feature=lambda tok: (" ".join(tok[3:]) if (" ; 5 ; " in " ".join(tok) or " ; 6 ; " in " ".join(tok)) else None),
+    stages=[corr_stage("C12LEAK", 480, 3000, seeds=2),
+            corr_stage("BUFK1", 1500, 5000, feature=feat_buf("C12"), params={"salt": 12}),
+            corr_stage("C13K1", 600, 4000, feature=lambda tok: (" ".join(tok[3:]) if (" ; 5 ; " in " ".join(tok) or " ; 6 ; " in " ".join(tok)) else None),
                        params={"closebias": 1}),
-            corr_stage("C12S", 3, 10, instrument=True, shards=4, tparams={"points": 1000})],
+            corr_stage("C12S", 5, 10, instrument=True, shards=4, tparams={"points": 1000})],
 )
 PROPS["C13"] = dict(
     level_text="Theorems (Properties/C13.v): for every operation sequence the implementation-level Channel model (buffer + rollback counter as coded) "
@@ -314,8 +314,8 @@ PROPS["C13"] = dict(
          "both the implementation-level model and the cursor specification; K2: 2-4 goroutines x 3-6 ops with a concurrent feeder, "
          "history must be linearizable w.r.t. the model. non-trivial = K1 case with a successful Rollback followed by a Get that "
          "returns a value (replay), or K2 history in which a Get returned a value; distinct by op sequence",
-    stages=[corr_stage("C13K1", 400, 6000, feature=feat_c13, seeds=3),
-            corr_stage("C13K2", 250, 4000, feature=feat_c13, seeds=3)],
+    stages=[corr_stage("C13K1", 2500, 6000, feature=feat_c13, seeds=3),
+            corr_stage("C13K2", 1500, 4000, feature=feat_c13, seeds=3)],
 )
 PROPS["C03"] = dict(
     pre_coq=[lambda: c03_pre_coq()],
@@ -331,8 +331,8 @@ PROPS["C03"] = dict(
     rule="pure cleaners: EXHAUSTIVE over size 0..6 x offset lists of length <= L over -2..8 (L=3 quick, 4 thorough), fixed cleaner over "
          "max,target in -1..8 x size 0..8 x 6 offset lists, plus seeded large values; Go result must equal the model. non-trivial = "
          "offset list mixing negative and positive offsets, or a forced trim (size > max)",
-    stages=[corr_stage("C03F", 2000, 40000, params=None, feature=feat_c03, tparams={"maxlen": 4}),
-            corr_stage("BUFK1", 300, 5000, feature=feat_buf("C03"), params={"salt": 3, "cleanermix": 1})],
+    stages=[corr_stage("C03F", 6000, 40000, params=None, feature=feat_c03, tparams={"maxlen": 4}),
+            corr_stage("BUFK1", 2000, 5000, feature=feat_buf("C03"), params={"salt": 3, "cleanermix": 1})],
 )
 
 
@@ -360,7 +360,7 @@ PROPS["C19"] = dict(
   level_text="Theorems (Properties/C19.v): over universally quantified reflect tables (Kind, AssignableTo assumed reflexive, Elem), for every signature, user function and option list the Call pipeline of the current tree (fixed = true) equals 'if valid then invoke exactly once with exactly the given arguments (variadic expansion, untyped nil = zero value of a nilable parameter) and store exactly the returned values, else error with no invocation and no store'; never a panic. The pipeline before commit cba04f9 is refuted (C19_nil_refuted, C19_current_panic_classes: nil argument, nil target, omitted CallArgs, >128 variadic arguments). Tie: K1 differential runs of the real Call against the extracted model instantiated with the tables reflect itself reports.",
   level_note="Trusted: Coq kernel, extraction, OCaml adapter (value observation encoding), Go harness; reflect modelled (panic conditions of Type/Value methods, FuncOf limit 128). CallArgsRaw/CallResultsRaw out of scope.",
   rule="signatures built with reflect.FuncOf/MakeFunc over a 32-type universe; EXHAUSTIVE: one argument (16 param types x 55 pool values incl. untyped nil and typed nils, plain and variadic), one result x every pool value as CallResults/CallResultsSlice target, two arguments over reduced pools (quick) / full pools (thorough, 774,400 cases), length sweeps incl. omitted CallArgs, 100..200 variadic arguments; plus seeded arity 0..4 cases, 25% malformed. Every record decided by the extracted model; monitors: no panic, error => not invoked and targets untouched, nil error => invoked once with exactly the given arguments and targets equal to a direct reflect call. non-trivial = invoked with >=1 argument, or an error for a call with arguments/targets; distinct by signature + option shapes",
-  stages=[corr_stage("C19K1", 3000, 100000, feature=feat_c19, seeds=3),
+  stages=[corr_stage("C19K1", 40000, 100000, feature=feat_c19, seeds=3),
           thorough_only(corr_stage("C19K1", 1, 1, params={"part": "a2full"}, feature=feat_c19))],
 )
 
@@ -467,7 +467,7 @@ PROPS["C11"] = dict(
     level_note="PARTIAL: the translator's held-lock computation (syntactic, access-path aliasing, entry locksets by intersection over call sites, 'fresh' "
                "objects) and the exemption list (Buffer.ensure double-checked reads = the property's proviso; Worker.do reads ordered by the go statement; "
                "Exclusive lock hand-off; unpublished item) are trusted. Atomics/channels synchronise as the Go memory model says.",
-    stages=[race_stage("C11RACE", 250, 2000)],
+    stages=[race_stage("C11RACE", 500, 2000)],
 )
 
 
@@ -502,8 +502,8 @@ PROPS["C18"] = dict(
          "never / before the first check / inside a call / inside a wait, closure re-invoked; C18F: constants, real delay function for c in 0..40 (+2^16, 2^31, "
          "MaxUint32) x 6 rates, exact twin math/rand differential, real waitDuration. non-trivial = K1 case with >= 2 calls and a cancellation point, a "
          "consumed fatal error nested >= 2 deep, or > 32 calls; or a real delay sample with c >= 1 and non-zero delay; distinct by script shape",
-    stages=[corr_stage("C18K1", 400, 6000, feature=feat_c18, seeds=3),
-            corr_stage("C18F", 12, 60, params=None, feature=feat_c18)],
+    stages=[corr_stage("C18K1", 6000, 6000, feature=feat_c18, seeds=3),
+            corr_stage("C18F", 30, 60, params=None, feature=feat_c18)],
 )
 
 
@@ -553,9 +553,9 @@ PROPS["C08"] = dict(
     level_note="PARTIAL on the parenthetical 'every later call panics too' (false of the code: known finding F4). Trusted: hand-written models; "
                "CasterAbs.v abstracts the word to (count, armed) assuming counts far below MaxInt32 (overflow is covered at word level only); "
                "sync.RWMutex writer preference as modelled; protocol theorems are for unbuffered channels; harness logical clock and 2 s hang deadline.",
-    stages=[corr_stage("C08F", 300, 20000, feature=feat_c08, seeds=2),
-            corr_stage("C08K2", 300, 6000, feature=feat_c08, seeds=3),
-            corr_stage("C08S", 3, 12, feature=feat_c08, instrument=True, shards=4, tparams={"points": 1000})],
+    stages=[corr_stage("C08F", 20000, 20000, feature=feat_c08, seeds=2),
+            corr_stage("C08K2", 6000, 6000, feature=feat_c08, seeds=3),
+            corr_stage("C08S", 12, 12, feature=feat_c08, instrument=True, shards=4, tparams={"points": 1000})],
 )
 
 # ---------------------------------------------------------------------------------------------------------------
@@ -673,8 +673,8 @@ PROPS["C20"] = dict(
          "decided by the model; C20T: per unit one millisecond-scale case (rates 2-5 ms / 0.2-1 ms / 1-40 us; receiver prompt, slow or absent; five cancellation "
          "plans) plus four race cases (rate 1 ns - 1 us, spinning receiver, instantaneous cancel). non-trivial = K1 case in which a producer existed and the scenario "
          "received or cancelled after the call, or a timed case cut short by cancellation / with values after cancellation / completed with count >= 2; distinct by tuple",
-    stages=[corr_stage("C20K1", 400, 6000, feature=feat_c20, seeds=2),
-            corr_stage("C20T", 300, 5000, feature=feat_c20, seeds=2)],
+    stages=[corr_stage("C20K1", 800, 6000, feature=feat_c20, seeds=2),
+            corr_stage("C20T", 600, 5000, feature=feat_c20, seeds=2)],
 )
 
 # ---------------------------------------------------------------------------------------------------------------
@@ -814,9 +814,9 @@ PROPS["C15"] = dict(
          "publishers x keys x SubscribeCancel receivers, exactly once per live subscriber. non-trivial = >=2 deliveries with a context-guarded "
          "subscription strictly inside >=3 pending, or a cancellation of a pending guarded subscription followed by a delivery; registry case with "
          "sub+unsub+publish and a panic; distinct by full record",
-    stages=[corr_stage("C15K1", 400, 6000, feature=feat_c15, seeds=3),
-            corr_stage("C15REG", 300, 5000, feature=feat_c15, seeds=2),
-            corr_stage("C15K2", 60, 800, validate=False, seeds=2)],
+    stages=[corr_stage("C15K1", 2500, 6000, feature=feat_c15, seeds=3),
+            corr_stage("C15REG", 2500, 5000, feature=feat_c15, seeds=2),
+            corr_stage("C15K2", 100, 800, validate=False, seeds=2)],
 )
 
 
